@@ -1327,9 +1327,14 @@ package regexp2
 //@   requires FDSetOK(set)
 //@   ensures b == FDSetHas(set, ch)
 
+// indexOfSet is verified; three of its four branches are calls of verified helpers. The fourth passes a closure to
+// helpers.IndexFunc (function-valued arguments with captured variables are outside the modelled subset): what stays
+// assumed is one sentence about that one call (callensure, printed in the evidence) - IndexFunc returns the first index
+// at which the closure, i.e. the verified charInFixedDistanceSet(set, .), holds.
 //@ func indexOfSet(chars []rune, set syntax.FixedDistanceSet) (r int)
-//@   trusted three of its four branches are direct calls of verified helpers; the fourth passes a closure to helpers.IndexFunc (function-valued arguments with captured variables are outside the modelled subset)
+//@   props C03 C10
 //@   pure
+//@   callensure IndexFunc: (r >= 0 ==> FDSetHas(set, in[r])) && forall p int {in[p]} :: 0 <= p && p < len(in) && (r < 0 || p < r) ==> !FDSetHas(set, in[p])
 //@   requires FDSetOK(set)
 //@   ensures -1 <= r && r < len(chars)
 //@   ensures r >= 0 ==> FDSetHas(set, chars[r])
